@@ -920,7 +920,12 @@ impl<Ty: EdgeType, Null: Nullable, Ix: IndexType> Iterator for Neighbors<'_, Ty,
     type Item = NodeIndex<Ix>;
 
     fn next(&mut self) -> Option<Self::Item> {
-        self.0.next().map(|(_, b, _)| b)
+        // the neighbor is the endpoint that is not being held fixed by the iteration
+        let iter_direction = self.0.iter_direction;
+        self.0.next().map(|(a, b, _)| match iter_direction {
+            NeighborIterDirection::Rows => a,
+            NeighborIterDirection::Columns => b,
+        })
     }
     fn size_hint(&self) -> (usize, Option<usize>) {
         self.0.size_hint()
@@ -995,12 +1000,9 @@ impl<'a, Ty: EdgeType, Null: Nullable, Ix: IndexType> Iterator for Edges<'a, Ty,
 
             let p = to_linearized_matrix_position::<Ty>(row, column, self.node_capacity);
             if let Some(e) = self.node_adjacencies[p].as_ref() {
-                let (a, b) = match self.iter_direction {
-                    Rows => (column, row),
-                    Columns => (row, column),
-                };
-
-                return Some((NodeIndex::new(a), NodeIndex::new(b), e));
+                // The matrix entry (row, column) is the edge row -> column, whichever of the
+                // two is held fixed: an incoming edge has the queried node as its target.
+                return Some((NodeIndex::new(row), NodeIndex::new(column), e));
             }
         }
     }
